@@ -11,11 +11,11 @@ PROPERTY_MODULES = {
     "C10": ["contracts.c10"],
     "C11": ["contracts.c05", "contracts.c11"],
     "C12": ["contracts.c12"],
-    "C13": ["contracts.c05", "contracts.c13"],
+    "C13": ["contracts.c01", "contracts.c02", "contracts.c16", "contracts.c05", "contracts.c13"],
     "C19": ["contracts.c19"],
     "C20": ["contracts.c20"],
-    "C14": ["contracts.c14"],
-    "C15": ["contracts.c15"],
+    "C14": ["contracts.c01", "contracts.c02", "contracts.c14"],
+    "C15": ["contracts.c01", "contracts.c02", "contracts.c15"],
     "C16": ["contracts.c16"],
     "C17": ["contracts.c17"],
     "C18": ["contracts.c05", "contracts.c06", "contracts.c18"],
